@@ -86,6 +86,30 @@ def wrapper_callbacks(run, rid):
     run.floor(rid, '_ListWrapper constructions', n, 6)
 
 
+def wrap_always(run, rid):
+    """whatever validate() returned, a list value is wrapped before it becomes the pending value: the is-it-a-list test
+    lies on every path from the setup-mode test to the store (only LineList.validate returns a tracked list itself)"""
+    sa = CU(run, '__setattr__')
+    g = cfg_of(sa)
+    vp = sa.params[2]
+    st = g.nodes_where(lambda n: n.kind == 'stmt' and isinstance(n.ast, ast.Assign) and isinstance(n.ast.targets[0], ast.Subscript) and dotted(n.ast.targets[0].value) == 'self.unsaved')
+    lt = [t for t in g.live if t.kind == 'test' and isinstance(t.ast, ast.Call) and dotted(t.ast.func) == 'isinstance' and len(t.ast.args) == 2
+          and dotted(t.ast.args[0]) == vp and dotted(t.ast.args[1]) == 'list']
+    run.floor(rid, 'is-it-a-list tests in __setattr__', len(lt), 1)
+    tests = [t for t in g.live if t.kind == 'test' and isinstance(t.ast, ast.Call) and dotted(t.ast.func) == 'has_setup_attr']
+    for t in tests:
+        nxt = [s_ for lab, s_ in t.succ if lab == 'T']
+        r = g.reachable(nxt, avoid=lambda n: n in lt, follow_exc=False)
+        hit = [n for n in st if n in r]
+        run.ob(rid, sa, t.ast, 'a list value is wrapped on every path to the pending set', not hit, slot='wrap-on-every-path',
+               message='TorConfig.__setattr__ can store the value without testing whether it is a list (the wrap is skipped on the validate() leg): '
+                       'a plain list assigned to a comma-list / port option is sent once, but later in-place edits are not tracked')
+    for t in lt:
+        ws = [n for n in g.real_nodes() if n.kind == 'stmt' and isinstance(n.ast, ast.Assign) and vp in assigned_targets(n.ast)
+              and isinstance(n.ast.value, ast.Call) and dotted(n.ast.value.func) == '_ListWrapper' and g.edge_dominates(t, 'T', n)]
+        run.ob(rid, sa, t.ast, 'a list value is replaced by a _ListWrapper', bool(ws), slot='wrap-site', message='no _ListWrapper(...) assignment under isinstance(value, list)')
+
+
 def r10_7(run):
     """every attribute assignment in setup mode becomes the pending value (last assignment wins)"""
     sa = CU(run, '__setattr__')
@@ -102,6 +126,7 @@ def r10_7(run):
     for n in st:
         v = n.ast.value
         run.ob('R10.7', sa, n.ast, 'the pending value is the assigned (validated) value', dotted(v) == sa.params[2], slot='pending-value', message='unsaved[...] = %s' % src(v))
+    wrap_always(run, 'R10.7')
     # each assigned list gets its own wrapper bound to the option it was assigned to
     for t in g.live:
         if t.kind == 'test' and '_ListWrapper' in src(t.ast):
@@ -357,6 +382,21 @@ def r10_5(run):
     sc_ = CU(run, '_save_completed')
     ok = any(isinstance(n, ast.Assign) and assign_to(n, 'self.unsaved') is not None for n in walk_unit(sc_))
     run.ob('R10.5', sc_, sc_.node, '_save_completed empties the pending set', ok, slot='completed-clears', message='_save_completed no longer clears unsaved')
+    # ... on every path: after the acknowledgement nothing that was sent stays pending.  A path without the wholesale reset is
+    # accepted only if what it deletes is not chosen by comparing the pending (validated) value with the stored (parsed) one -
+    # the two forms differ for Boolean+Auto, comma lists given as strings, floats given as strings
+    gsc = cfg_of(sc_)
+    resets = gsc.nodes_where(lambda n: n.kind == 'stmt' and isinstance(n.ast, ast.Assign) and assign_to(n.ast, 'self.unsaved') is not None
+                             or any(is_call_to(a, 'self.unsaved.clear') for a in node_asts(n)))
+    skip = gsc.reachable([gsc.entry], avoid=lambda n: n in resets, follow_exc=False)
+    if any(e in skip for e in gsc.normal_exits()):
+        dels = gsc.nodes_where(lambda n: n.kind == 'stmt' and (isinstance(n.ast, ast.Delete) or any(is_call_to(a, 'self.unsaved.pop') for a in node_asts(n))))
+        bad = []
+        for dn in dels:
+            bad += [t for t, lab in gsc.guarded_by(dn, lambda t: isinstance(t, ast.Compare) and mentions(t, 'self.config') and mentions(t, 'self.unsaved'))]
+        run.ob('R10.5', sc_, bad[0].ast if bad else sc_.node, 'after the acknowledgement nothing that was sent stays pending', bool(dels) and not bad, slot='completed-clears-all',
+               message='_save_completed has a path that keeps entries pending %s: an acknowledged option is sent again by every later save'
+                       % ('unless %s (pending values are in validated form, stored ones in parsed form)' % src(bad[0].ast) if bad else '(no deletion at all)'))
 
 
 def r10_6(run):
@@ -404,6 +444,8 @@ RULES = [
 from ..selftest import M  # noqa: E402
 F = 'txtorcon/torconfig.py'
 MUTANTS = [
+    M('wrap-only-without-validate', F, "                value = self.parsers[name].validate(value, self, name)\n            if isinstance(value, list):", "                value = self.parsers[name].validate(value, self, name)\n            elif isinstance(value, list):", ['R10.7']),
+    M('ack-clears-only-equal', F, "        self.__dict__['unsaved'] = {}\n        return self", "        for key in list(self.unsaved):\n            if self.unsaved[key] == self.config.get(key):\n                del self.unsaved[key]\n        return self", ['R10.5']),
     M('mark_unsaved-saves', F, "        if name in self.config and name not in self.unsaved:\n            self.unsaved[name] = self.config[self._find_real_name(name)]", "        if name in self.config and name not in self.unsaved:\n            self.unsaved[name] = self.config[self._find_real_name(name)]\n            self.save()", ['R10.1']),
     M('setattr-sends', F, "            name = self._find_real_name(name)\n            self.unsaved[name] = value\n", "            name = self._find_real_name(name)\n            self.unsaved[name] = value\n            if self._protocol is not None:\n                self._protocol.set_conf(name, value)\n", ['R10.1']),
     M('insert-not-wrapped', F, "    insert = _wrapture(list.insert)\n", "", ['R10.2']),
